@@ -17,12 +17,25 @@ Theorem C14_keys : forall include,
   else if str_eqb include (s2l "deletions") then [KDeletions]
   else [].
 Proof.
-  intros include. unfold selected.
-  destruct (str_eqb_spec include (s2l "all")) as [->|N1]; [reflexivity|].
-  destruct (str_eqb_spec include (s2l "combined")) as [->|N2]; [reflexivity|].
-  destruct (str_eqb_spec include (s2l "insertions")) as [->|N3]; [reflexivity|].
-  destruct (str_eqb_spec include (s2l "deletions")) as [->|N4]; reflexivity.
+  intros include.
+  destruct (str_eqb_spec include (s2l "all")) as [->|N1]; [vm_compute; reflexivity|].
+  destruct (str_eqb_spec include (s2l "combined")) as [->|N2]; [vm_compute; reflexivity|].
+  destruct (str_eqb_spec include (s2l "insertions")) as [->|N3]; [vm_compute; reflexivity|].
+  destruct (str_eqb_spec include (s2l "deletions")) as [->|N4]; [vm_compute; reflexivity|].
+  assert (F : forall l, include <> l -> str_eqb include l = false).
+  { intros l Hne. destruct (str_eqb_spec include l); [contradiction|reflexivity]. }
+  unfold selected, Tables.include_table. cbn [flat_map fst snd mem_str].
+  repeat match goal with
+         | |- context [str_eqb include ?l] => rewrite (F l) by (first [exact N1 | exact N2 | exact N3 | exact N4])
+         end.
+  reflexivity.
 Qed.
+
+(* the table of include values is the one translated from _htmldiff *)
+Theorem C14_include_table :
+  Tables.include_table = [(s2l "combined", [s2l "all"; s2l "combined"]); (s2l "insertions", [s2l "all"; s2l "insertions"]);
+                          (s2l "deletions", [s2l "all"; s2l "deletions"])].
+Proof. reflexivity. Qed.
 
 (* every view keeps doctype, html, head and body attributes of its base page (old page for deletions) *)
 Theorem C14_keeps_attributes : forall k old new ops ic dc body,
